@@ -517,6 +517,12 @@ def _h5_mutations(fn, W):
     return out
 
 
+def _incomplete_only(node, tgt):
+    """the statement runs only when `tgt` lacks the completeness marker"""
+    return any((not a.pol) and a.text == f"'user rate' in {tgt}.attrs"
+               for a in conditions_at(node))
+
+
 def r2_append_only(ctx):
     W = Writer(ctx.repo)
     muts = _h5_mutations(W.fn, W)
@@ -527,8 +533,12 @@ def r2_append_only(ctx):
                            for x in ast.walk(s))
     for node, kind, tgt, key in muts:
         if kind == "delete":
-            ctx.fail(node, f"delete {tgt}", "save_hdf5 deletes from the "
-                     "container")
+            # only a group that the readers skip anyway (completeness
+            # marker absent) may be removed
+            ok = _incomplete_only(node, tgt)
+            ctx.check(ok, node, f"delete {tgt} only when it is incomplete",
+                      "save_hdf5 deletes an entry from the container that "
+                      "may be complete (stored ratings are lost)")
             continue
         if in_exists(node):
             ctx.fail(node, f"{kind} on {tgt} in the existing-entry branch",
@@ -611,7 +621,8 @@ def r3_refusal(ctx):
             continue
         if rz.id in cfg.reach([n.id], skip_labels=("exc",)):
             harmless = (kind == "create_dataset" and tgt != W.outvar) or (
-                kind == "setitem" and not tgt.startswith(W.outvar))
+                kind == "setitem" and not tgt.startswith(W.outvar)) or (
+                kind == "delete" and _incomplete_only(node, tgt))
             ctx.check(harmless, node,
                       f"{kind} {tgt} may precede the refusal",
                       "the container is modified before a different fit is "
@@ -653,6 +664,8 @@ def r3_refusal(ctx):
 def r4_crash_window(ctx):
     W = Writer(ctx.repo)
     io = W.mod
+    _raw_data_window(ctx, W)
+    _incomplete_group_reuse(ctx, W)
     order = W.creation_order()
     pos = {}
     for i, it in enumerate(order):
@@ -701,6 +714,84 @@ def r4_crash_window(ctx):
                     present.add((kind, const_str(nd.left)))
             _check_window(ctx, fn, label, present, {item}, position, order,
                           node)
+
+
+def _raw_data_window(ctx, W):
+    """the embedded measurement: dataset first, its 'path' attribute
+    second - a save that fails in between leaves a data set without the
+    attribute every later load needs"""
+    io = W.mod
+    ld = io.func("load_hdf5")
+    reads = [n for n in walk_no_nested(ld, False)
+             if isinstance(n, ast.Subscript) and isinstance(n.ctx, ast.Load)
+             and const_str(n.slice) == "path"
+             and norm(n.value).endswith("attrs")]
+    ctx.floor("reads of the raw data's 'path' attribute", len(reads), 1)
+    for n in reads:
+        base = norm(n.value)
+        guarded = any(a.pol and a.text == f"'path' in {base}"
+                      for a in conditions_at(n))
+        ctx.check(guarded, n, "raw data without 'path' are skipped",
+                  "load_hdf5 reads the 'path' attribute of every embedded "
+                  "measurement without testing that it exists: a save that "
+                  "failed between creating the data set and writing its "
+                  "'path' leaves an entry on which every later load raises "
+                  "KeyError - all previously stored ratings become "
+                  "unreadable")
+    stores = [st for st in walk_no_nested(W.fn, False)
+              if isinstance(st, ast.Assign) and isinstance(
+                  st.targets[0], ast.Subscript)
+              and const_str(st.targets[0].slice) == "path"
+              and norm(st.targets[0].value).endswith("attrs")]
+    ctx.floor("writes of the raw data's 'path' attribute", len(stores), 1)
+    completes = False
+    for st in stores:
+        conds = conditions_at(st)
+        absent = any((not a.pol) and a.text.endswith(" in data") and
+                     "path" not in a.text for a in conds)
+        if not absent:
+            completes = True
+    ctx.check(completes, stores[0],
+              "a data set left without 'path' is completed by the next save",
+              "save_hdf5 writes the 'path' attribute only when it creates "
+              "the data set: a data set left behind by a failed save is "
+              "never completed, yet later saves attach ratings to it")
+
+
+def _incomplete_group_reuse(ctx, W):
+    """the existing-entry branch must not put the completeness marker on a
+    group that an earlier, failed save left incomplete"""
+    ex = W.exists_if
+    marker = "user rate"
+    reuse = [st for st in ex.body if isinstance(st, ast.Assign)
+             and norm(st.targets[0]) == W.outvar]
+    if not reuse:
+        raise Undecided("save_hdf5: existing entry is not bound to the "
+                        "output variable")
+    grp = norm(reuse[0].value)                  # ana[idd]
+    conds = conditions_at(reuse[0])
+    ok = any(a.pol and a.text == f"'{marker}' in {grp}.attrs" for a in conds)
+    if not ok:
+        # ... or incomplete groups are removed before the branch
+        cfg = CFG(W.fn)
+        test = cfg.node_containing(ex.test)
+        for st in walk_no_nested(W.fn, False):
+            if isinstance(st, ast.Delete) and any(
+                    norm(t) == grp for t in st.targets):
+                c2 = conditions_at(st)
+                if any((not a.pol) and a.text ==
+                       f"'{marker}' in {grp}.attrs" for a in c2):
+                    dn = cfg.node_of_stmt(st)
+                    if dn is not None and test is not None and \
+                            test.id in cfg.reach([dn.id]):
+                        ok = True
+    ctx.check(ok, reuse[0], "an incomplete group is never reused",
+              f"save_hdf5 reuses an existing group `{grp}` without testing "
+              f"that it is complete ('{marker}' present): a group left "
+              f"behind by a save that failed between two create_dataset "
+              f"calls receives the '{marker}' marker on the next save of "
+              f"the same curve and load_hdf5 then raises KeyError for the "
+              f"whole container")
 
 
 def _check_window(ctx, fn, name, skip, req, position, order, node=None):
